@@ -2,6 +2,7 @@ package c16
 
 import (
 	"strconv"
+	"strings"
 
 	"pgregory.net/rapid"
 
@@ -60,10 +61,11 @@ var litNL = []string{"\n", "\n", "\n", "\n\n", " \n", "\n  ", "\n\t\n"}
 type g struct {
 	t         *rapid.T
 	hazard    string // "", else, rescan, nestedctx, nestedabsent: the one open known-finding shape this case carries
+	levels    int    // templates in the chain
 	elseAny   bool   // else branches may be selected
 	ctxAny    bool   // nested loops may use this / @index / @first / @last
 	absentAny bool   // items may lack the list field a nested loop runs over without having another list field
-	rescanAny bool   // data strings may contain "{{"
+	rescanAny bool   // data strings may fall into a re-scan class (see rescan.go); otherwise such strings are replaced
 	// collected while generating the template
 	usedVars  map[string]bool
 	usedConds map[string]bool
@@ -326,15 +328,57 @@ var valWords = []string{"Alice", "Bob", "ACME Ltd.", "東京", "München", "N/A"
 var valBraceSafe = []string{"a{b", "c}d", "x { y } z", "{ }", "{k}", "q}", "{ {x} }", "{x"}
 var valMultiline = []string{"line1\nline2", "\nlead", "trail\n", "a\n\nb", " \n "}
 
-// directive-like strings (known finding D43: values are scanned again by later passes)
-var valDirective = []string{"{{customer}}", "{{label}}", "{{sname}}", "{{#each tags}}X{{/each}}", "{{#if isVip}}Y{{/if}}", "{{else}}", "{{", "a{{b", "}}{{", "{{@index}}", "{{this}}",
-	"{{/each}}", "{{/if}}", "{{#if active}}", "{{pname}} {{role}}", "{{#image logo}}", "{{unknown}}"}
+// values with double braces that are not directives. Rules that keep any concatenation of pieces from forming a
+// directive the pieces do not contain: no value starts with '}', every "}}" inside a value is preceded (within the
+// value) by a character that cannot be part of a name, and "{{ x }}" has inner blanks. A value may end with "{{".
+var valBraceOpen = []string{"{{", "a{{", "a{{b", "<{{>", "{{ x }}", "{{ }}", "x-}}y", "( }} )", "-}}{{-", "{{ customer }}", "{ {customer} }", "{{customer }}", "{{ #if isVip }}"}
+
+// directive-like strings: whole directive tokens inside a value. Whether the unchanged library re-interprets one
+// depends on where the value is inserted and on the kind of directive (rescan.go); everywhere else the value is
+// judged exactly like any other text.
+var valDirective = []string{"{{customer}}", "{{label}}", "{{sname}}", "{{#each tags}}X{{/each}}", "{{#if isVip}}Y{{/if}}", "{{else}}", "{{", "a{{b", "{{@index}}", "{{this}}",
+	"{{/each}}", "{{/if}}", "{{#if active}}", "{{pname}} {{role}}", "{{#image logo}}", "{{unknown}}", "{{#each tags}}", "[IMAGE:logo]", "{{@last}}", "{{#block \"header\"}}Z{{/block}}"}
+
+var valDirStatic = []string{"{{/if}}", "{{else}}", "{{/each}}", "{{this}}", "{{@index}}", "{{@first}}", "{{/block}}", "{{extends \"t0\"}}", "{{#block \"header\"}}x{{/block}}",
+	"{{#each tags}}", "{{#each tags}}X{{/each}}", "{{#if isVip}}Y{{/if}}", "{{#if isVip}}", "{{#image logo}}", "{{unknown}}", "{{nope}}", "{{items}}", "{{tags}}", "{{header}}"}
+
+// dirLike draws a value containing a directive token: mostly a plain placeholder naming a variable, a condition,
+// a list, an item field or nothing that exists.
+func (x *g) dirLike() string {
+	var tok string
+	switch k := x.uniform(10, "dlk"); {
+	case k < 4:
+		tok = "{{" + x.pick(varNames, "dlv") + "}}"
+	case k < 5:
+		tok = "{{" + x.pick(condNames, "dlc") + "}}"
+	case k < 6:
+		s := topLists[x.uniform(len(topLists), "dll")]
+		if s.scalar || x.chance(30, "dlln") {
+			tok = "{{" + s.name + "}}"
+		} else {
+			tok = "{{" + x.pick(s.fields, "dlf") + "}}"
+		}
+	default:
+		tok = x.pick(valDirStatic, "dls")
+	}
+	switch x.uniform(4, "dlw") {
+	case 0:
+		return "see " + tok
+	case 1:
+		return tok + " " + x.pick(valWords, "dlw2")
+	}
+	return tok
+}
 
 func (x *g) scalar() Val {
 	k := x.intn(0, 19, "valk")
 	switch {
-	case k < 8:
+	case k < 6:
 		return Val{T: "s", S: x.pick(valWords, "vw")}
+	case k < 7:
+		return Val{T: "s", S: x.pick(valBraceOpen, "vbo")}
+	case k < 8:
+		return Val{T: "s", S: x.dirLike()}
 	case k < 9:
 		return Val{T: "s", S: ""}
 	case k < 10:
@@ -472,15 +516,86 @@ func (x *g) data() Data {
 	return d
 }
 
-// poison puts one directive-like string into a value that the template uses (hazard rescan).
-func (x *g) poison(c *Case) {
-	s := x.pick(valDirective, "poison")
+// usedVarList: the variables the template refers to, in pool order.
+func (x *g) usedVarList() []string {
 	var used []string
 	for _, v := range varNames {
 		if x.usedVars[v] {
 			used = append(used, v)
 		}
 	}
+	return used
+}
+
+// nameOther makes the value of one used variable name ANOTHER supplied variable ("{{other}}").
+func (x *g) nameOther(c *Case) bool {
+	used := x.usedVarList()
+	if len(used) == 0 {
+		return false
+	}
+	a := used[x.uniform(len(used), "noa")]
+	var others []string
+	for _, v := range varNames {
+		if _, ok := c.Data.Vars[v]; ok && v != a {
+			others = append(others, v)
+		}
+	}
+	if len(others) == 0 {
+		b := varNames[x.uniform(len(varNames), "nob")]
+		if b == a {
+			return false
+		}
+		c.Data.Vars[b] = x.scalar()
+		others = []string{b}
+	}
+	b := others[x.uniform(len(others), "nob2")]
+	v := "{{" + b + "}}"
+	switch x.uniform(4, "nof") {
+	case 0:
+		v = "see " + v
+	case 1:
+		v = v + "!"
+	case 2:
+		if len(others) > 1 {
+			v = v + " / {{" + others[x.uniform(len(others), "nob3")] + "}}"
+		}
+	}
+	c.Data.Vars[a] = Val{T: "s", S: v}
+	return true
+}
+
+// poison puts a directive-like string into a value that the template uses, in one of the positions where an
+// open re-scan finding applies (hazard rescan).
+func (x *g) poison(c *Case) {
+	switch x.uniform(3, "poisonkind") {
+	case 1: // successive substitution of the item's placeholders
+		for _, sc := range topLists {
+			l := c.Data.Lists[sc.name]
+			if len(l) == 0 {
+				continue
+			}
+			if sc.scalar && sc.name == "tags" {
+				l[x.uniform(len(l), "pfi")] = Val{T: "s", S: x.pick([]string{"{{@index}}", "{{@last}}.", "n={{@first}}"}, "pfv")}
+				return
+			}
+			if !sc.scalar && l[0].T == "m" {
+				it := l[x.uniform(len(l), "pfi")]
+				if it.T == "m" {
+					it.M[sc.fields[0]] = Val{T: "s", S: "{{" + sc.fields[1] + "}}"}
+					if x.chance(70, "pfo") {
+						it.M[sc.fields[1]] = Val{T: "s", S: "F2"}
+					}
+					return
+				}
+			}
+		}
+	case 2: // a derived template runs the pipeline again over the rendered text of its base
+		if x.levels >= 2 && x.nameOther(c) {
+			return
+		}
+	}
+	s := x.pick(valDirective, "poison")
+	used := x.usedVarList()
 	// prefer an item field when a used list has map items
 	if x.chance(50, "poisonwhere") || len(used) == 0 {
 		for _, sc := range topLists {
@@ -499,6 +614,103 @@ func (x *g) poison(c *Case) {
 		return
 	}
 	c.Data.Vars[varNames[0]] = Val{T: "s", S: s}
+}
+
+// sanitise replaces every data string that falls into a re-scan class of an open finding by plain text, so that
+// the cases without the rescan hazard are judged exactly whatever braces their values contain.
+func sanitise(c *Case) int {
+	n := 0
+	var in *rsInfo
+	c.rewriteDataStrings(func(ctx strCtx, s string) (string, bool) {
+		if !strings.Contains(s, "{{") && !strings.Contains(s, "[IMAGE:") {
+			return s, false
+		}
+		if in == nil {
+			in = c.rescanInfo()
+		}
+		if len(classify(ctx, s, in)) == 0 {
+			return s, false
+		}
+		n++
+		return "n/a", true
+	})
+	return n
+}
+
+// ---------------------------------------------------------------------------------------------
+// Load schedules (the history of the engine before the chain is loaded base-to-child).
+
+func (x *g) oldVersion(c *Case, t int, blocks []string) int {
+	v := Version{T: t}
+	if t == 0 {
+		v.Base = append([]Node{{K: KLit, S: "old base "}}, x.top(0, 3, blocks, false)...)
+	} else {
+		for _, b := range blocks {
+			if x.chance(60, "oovr") {
+				v.Ov = append(v.Ov, Override{Name: b, Body: append([]Node{{K: KLit, S: "old "}}, x.top(0, 2, nil, false)...)})
+			}
+		}
+		if len(v.Ov) == 0 {
+			v.Ov = []Override{{Name: blocks[0], Body: []Node{{K: KLit, S: "old"}}}}
+		}
+	}
+	c.Old = append(c.Old, v)
+	return len(c.Old)
+}
+
+func (x *g) schedule(c *Case, blocks []string) {
+	n := x.levels
+	if !x.chance(62, "sched") {
+		return
+	}
+	for seg, segs := 0, x.intn(1, 2, "segs"); seg < segs; seg++ {
+		k := x.uniform(3, "segk")
+		if n == 1 && k == 0 {
+			k = 1 + x.uniform(2, "segk1")
+		}
+		switch k {
+		case 0: // child first: a template is loaded while its base is not there
+			switch x.uniform(3, "cfk") {
+			case 0: // the rendered template alone
+				c.Pre = append(c.Pre, Load{T: n - 1})
+			case 1: // the whole chain child-to-base
+				for i := n - 1; i >= 0; i-- {
+					c.Pre = append(c.Pre, Load{T: i})
+				}
+			default: // everything but the base, in order
+				for i := 1; i < n; i++ {
+					c.Pre = append(c.Pre, Load{T: i})
+				}
+			}
+		case 1: // an earlier version of template j, its descendants loaded on top of it
+			j := 0
+			if n > 1 {
+				j = x.uniform(n, "brj")
+				if j == n-1 && x.chance(70, "brj2") { // mostly a base of something
+					j = x.uniform(n-1, "brj3")
+				}
+			}
+			if len(blocks) == 0 && j > 0 {
+				j = 0
+			}
+			if x.chance(40, "brfull") { // the versions before it first
+				for i := 0; i < j; i++ {
+					c.Pre = append(c.Pre, Load{T: i})
+				}
+			}
+			c.Pre = append(c.Pre, Load{T: j, V: x.oldVersion(c, j, blocks)})
+			for i := j + 1; i < n; i++ {
+				c.Pre = append(c.Pre, Load{T: i})
+			}
+		default: // the chain with its final sources (the final phase loads identical texts again)
+			for i := 0; i < n; i++ {
+				c.Pre = append(c.Pre, Load{T: i})
+			}
+			if x.chance(25, "rstwice") {
+				c.Pre = append(c.Pre, Load{T: n - 1})
+			}
+		}
+	}
 }
 
 // forceElse makes sure that a case carrying the else hazard really selects an else branch at top level.
@@ -527,8 +739,12 @@ func genCase(t *rapid.T) Case {
 		usedLists: map[string]bool{}, usedImgs: map[string]bool{}}
 	x.seed = rapid.Uint64().Draw(t, "seed")
 	var hz []string
-	for _, h := range []struct{ id, name string }{{"KF-C16-else", "else"}, {"KF-C16-rescan", "rescan"}, {"KF-C16-nested-context", "nestedctx"}, {"KF-C16-nested-absent", "nestedabsent"}} {
-		if openKF[h.id] {
+	rescanOpen := openKF["KF-C16-rescan"] || openKF["KF-C16-rescan-fields"] || openKF["KF-C16-rescan-inherit"]
+	for _, h := range []struct {
+		open bool
+		name string
+	}{{openKF["KF-C16-else"], "else"}, {rescanOpen, "rescan"}, {openKF["KF-C16-nested-context"], "nestedctx"}, {openKF["KF-C16-nested-absent"], "nestedabsent"}} {
+		if h.open {
 			hz = append(hz, h.name)
 		}
 	}
@@ -540,10 +756,11 @@ func genCase(t *rapid.T) Case {
 	x.elseAny = !openKF["KF-C16-else"] || x.hazard == "else"
 	x.ctxAny = (!openKF["KF-C16-nested-context"] && x.chance(40, "ctxfree")) || x.hazard == "nestedctx"
 	x.absentAny = (!openKF["KF-C16-nested-absent"] && x.chance(30, "absfree")) || x.hazard == "nestedabsent"
-	x.rescanAny = (!openKF["KF-C16-rescan"] && x.chance(10, "rescanfree")) || x.hazard == "rescan"
+	x.rescanAny = !rescanOpen || x.hazard == "rescan"
 
 	c := Case{Entry: x.intn(0, 1, "entry")}
 	levels := []int{1, 1, 1, 2, 2, 3}[x.intn(0, 5, "levels")]
+	x.levels = levels
 	var blocks []string
 	if levels > 1 || x.chance(15, "soloBlocks") {
 		blocks = append(blocks, blockNames[:x.intn(1, len(blockNames), "nblocks")]...)
@@ -565,9 +782,18 @@ func genCase(t *rapid.T) Case {
 		c.Children = append(c.Children, ov)
 	}
 	c.Data = x.data()
-	if x.rescanAny {
+	// often: a used variable whose value names another supplied variable. With one template level this is judged
+	// exactly; with a derived template it is a re-scan class, hence only under the hazard there.
+	if (levels == 1 || x.rescanAny) && x.chance(22, "nameother") {
+		x.nameOther(&c)
+	}
+	if x.hazard == "rescan" || (!rescanOpen && x.chance(10, "rescanfree")) {
 		x.poison(&c)
 	}
+	if !x.rescanAny {
+		sanitise(&c)
+	}
+	x.schedule(&c, blocks)
 	if x.hazard == "else" {
 		x.forceElse(&c)
 	}
